@@ -5,9 +5,15 @@ def msg_ctor(name, kind):
     return Fn(F, name, impl="Message", slot="diagn", ret="res", key="Message::" + name, props=["C03"],
               ensures=[C("kind", "res.kind is %s && res.inner@.len() == 0" % kind, ["C03"])])
 
-wrap = Fn(F, "wrap_in_parents", impl="Report", slot="diagn", mode="stub", ret="res", key="Report::wrap_in_parents",
-          ensures=[C("toplevel_kind", "res.kind == (if self.parents@.len() == 0 { msg.kind } else { self.parents@[0].kind })"),
-                   C("identity_without_parents", "self.parents@.len() == 0 ==> res == msg")])
+wrap = Fn(F, "wrap_in_parents", impl="Report", slot="diagn", ret="res", key="Report::wrap_in_parents", props=["C13", "C03"],
+          ensures=[C("toplevel_kind", "res.kind == (if self.parents@.len() == 0 { msg.kind } else { self.parents@[0].kind })", ["C03"]),
+                   C("identity_without_parents", "self.parents@.len() == 0 ==> res == msg", ["C03"]),
+                   C("outermost_context_first", "nested_in(res, self.parents@, 0, msg)", ["C13"])],
+          for_to_while=[1],
+          loops={1: Loop(invariant=[
+              C("cursor", "verif_vec_1@ == self.parents@ && verif_next_1 <= verif_vec_1@.len()"),
+              C("wrapped_so_far", "nested_in(msg, self.parents@, verif_next_1 as int, msg0)"),
+          ], decreases="verif_next_1", before="        let ghost msg0 = msg;")})
 
 fns = report_fns("verify", "diagn")
 
